@@ -13,8 +13,8 @@ ITER = "TLA+ spec IterProgram (TLC exhaustive: leaf contents x call histories) +
 CHECKS = {
     "C01": dict(
         technique=ITER,
-        text="TLC enumerates every program of <=2 (quick) / <=3 (thorough) factory calls from a ~45-entry menu (calculations, all projections, 12-16 predicates, deduplication, 7-11 sort-term lists, 8-11 slices, chain with a second leaf and with itself, materialization, iteration->iteration transfer) over 14 (quick) / all 85 (thorough) leaf contents incl. zero-column and key/non-key schemas and four leaf-bound declarations; it maintains the reference rows with the naive semantics only and proves on the code-shaped rewrite rules and execution model that execution returns exactly those rows. Every TLC state is replayed through the real public API and executed by the real iteration engine (with RowSequence and with lazy counting payloads) and compared with TLC's rows as lists; the real tree is projected and its denotation recomputed by TLC.",
-        design_ref="§6 C01",
+        text="TLC enumerates every program of <=2 (quick) / <=3 (thorough) factory calls from a ~45-entry menu (calculations, all projections, 12-16 predicates, deduplication, 7-11 sort-term lists, 8-11 slices, chain with a second leaf and with itself, materialization, iteration->iteration transfer) over 14 (quick) / all 85 (thorough) leaf contents incl. zero-column and key/non-key schemas and four leaf-bound declarations; it maintains the reference rows with the naive semantics only and proves on the code-shaped rewrite rules and execution model that execution returns exactly those rows. Every TLC state is replayed through the real public API and executed by the real iteration engine (with RowSequence and with lazy counting payloads) and compared with TLC's rows as lists; the real tree is projected and its denotation recomputed by TLC. Beyond the exhaustive bound, 1200 (quick) / 40000 (thorough) seeded random programs of 5-12 operations over 3-6 columns and values -2..3 are executed for real and the recorded rows are judged by TLC against ApplyOps of the recorded operation sequence (TraceProgram).",
+        design_ref="§0.1, §6 C01",
         note="bounded: values 0..1, <=3 rows per leaf, depth <=3; tag reuse and non-key columns without their keys are outside the documented contract and not generated; zero drift between model and code is reported in evidence",
     ),
     "C06": dict(
@@ -25,9 +25,9 @@ CHECKS = {
     ),
     "C14": dict(
         technique=ITER,
-        text="WellFormed(tree) is an invariant of IterProgram (TLC), the documented no-op calls are checked to return the identical object in the replay (action property NoOpIdentity in the model), and every real tree is judged WellFormed by TLC (TraceTree clause wf).",
-        design_ref="§6 C14",
-        note="iteration engines (two) in this round",
+        text="WellFormed(tree) is an invariant of IterProgram (TLC), the documented no-op calls are checked to return the identical object in the replay (action property NoOpIdentity in the model), and every real tree is judged WellFormed by TLC (TraceTree clause wf). The same holds in SqlProgram and MultiEngine (three engines, every preferred-engine option combination, no-op forms issued with options, engine-restricted functions nested in OR/NOT/containers must be refused). All 349 distinct relations built by the repository's own 82 tests (recorded by a pytest plugin, guard LSST_DAF_RELATION_VERIF) are judged by TLC as well, with a corrupt-one-field self-test showing the binding rejects.",
+        design_ref="§0.1, §6 C14",
+        note="SQL engine + two iteration engines",
     ),
     "C16": dict(
         technique=ITER,
@@ -55,8 +55,8 @@ CHECKS = {
     ),
     "C02": dict(
         technique=SQL,
-        text="TLC enumerates programs over tables T1{a,b} (3-12 contents incl. duplicates/empties, exact/loose/zero/unbounded declarations), T2{a,c}, T3{a,b}: the six unary operations from a general menu (all projections, 10 predicates, 7 sort lists, 7 slices) to depth 2 and a focused 12-operation menu (hitting every has_slice/has_dedup/has_projection/compound branch of the Select machine) to depth 3-5, plus join (with/without predicate, operand on either side) and chain with 12 pre-built operands (projected, deduplicated, selected, sorted+sliced, calculated, bare chain). TLC proves on the code-shaped Select machine that the tree denotes the reference bag for both physical table orders whenever the bag is determined. Every TLC state is built through the real API, compiled by the real engine, run on SQLite with reverse_unordered_selects off and on, and compared as a multiset with TLC's rows; the real tree is also judged by TLC.",
-        design_ref="§6 C02",
+        text="TLC enumerates programs over tables T1{a,b} (3-12 contents incl. duplicates/empties, exact/loose/zero/unbounded declarations), T2{a,c}, T3{a,b}: the six unary operations from a general menu (all projections, 10 predicates, 7 sort lists, 7 slices) to depth 2 and a focused 12-operation menu (hitting every has_slice/has_dedup/has_projection/compound branch of the Select machine) to depth 3-5, plus join (with/without predicate, operand on either side) and chain with 12 pre-built operands (projected, deduplicated, selected, sorted+sliced, calculated, bare chain). TLC proves on the code-shaped Select machine that the tree denotes the reference bag for both physical table orders whenever the bag is determined. Every TLC state is built through the real API, compiled by the real engine, run on SQLite with reverse_unordered_selects off and on, and compared as a multiset with TLC's rows; the real tree is also judged by TLC (denotation guarded by TLC's own determinacy analysis of the real tree). Operands include relations made by the engine itself (doomed, zero-column doomed, join identity); column tags have colliding hashes and column sets are declared in different insertion orders so that positional UNION pairing is exercised. Deep random programs (5-12 operations) run on SQLite are judged by TLC (TraceProgram).",
+        design_ref="§0.1, §6 C02",
         note="bounded: values 0..1, <=4 rows; SQLite only; bag equality demanded only when TLC's DetTree holds; nested bare compound selects are compiled but not executed (SQLite grammar limit)",
     ),
     "C08": dict(
@@ -67,15 +67,15 @@ CHECKS = {
     ),
     "C11": dict(
         technique=SQL,
-        text="For every SqlProgram state TLC decides from the data whether the outermost query level carries a sort that totally orders its rows (OrdTree) and proves in the model that the tree's denotation then equals the reference LIST for both physical orders; the replay fetches rows in order from SQLite for both scan orders and demands list equality in exactly those states (slices under a total sort, trailing sort followed by slices/projections/deduplications). Requests that would bury a sort without slice under a join or chain are listed by TLC as must-be-refused (invariant OrderLossRefused) and the replay demands RelationalAlgebraError.",
-        design_ref="§6 C11",
+        text="For every SqlProgram state TLC decides from the data whether the outermost query level carries a sort that totally orders its rows (OrdTree) and proves in the model that the tree's denotation then equals the reference LIST for both physical orders; the replay fetches rows in order from SQLite for both scan orders and demands list equality in exactly those states (slices under a total sort, trailing sort followed by slices/projections/deduplications). Requests that would bury a sort without slice under a join or chain are listed by TLC as must-be-refused (invariant OrderLossRefused) and the replay demands RelationalAlgebraError. Deep random programs add list comparisons judged by TLC whenever its ListDet analysis of the real tree holds.",
+        design_ref="§0.1, §6 C11",
         note="focused menu: total and partial sorts, three slice windows, projection, deduplication, selection, calculation in every relative position to depth 3 (quick) / 5 (thorough)",
     ),
     "C17": dict(
         technique=SQL,
-        text="Conform(rel) = rel and MarkerCoherent(rel) are invariants of SqlProgram (TLC); the replay checks engine.conform(rel) is rel and the is_compound flag on every real Select, and hands the real tree to TLC, which re-derives each marker's target from its recorded slots and skip target and compares (TraceTree clause coh).",
-        design_ref="§6 C17",
-        note="raw bottom-up trees (conform of arbitrary trees) are added in a later round",
+        text="Conform(rel) = rel and MarkerCoherent(rel) are invariants of SqlProgram (TLC); the replay checks engine.conform(rel) is rel and the is_compound flag on every real Select, and hands the real tree to TLC, which re-derives each marker's target from its recorded slots and skip target and compares (TraceTree clause coh, incl. StrictCoherent = the property read to the letter). RawConformKeeps: for every program the same operation sequence is also assembled bottom-up with the plain constructors, conformed by the real engine, executed on SQLite and compared with TLC's rows, and the conformed real tree is judged by TLC. The relations built by the repository's own tests are judged too.",
+        design_ref="§0.1, §0.3 (F15), §6 C17",
+        note="open finding F15 (a projection that drops a calculated column elides the Calculation from the Select's target chain) is excluded by matcher and reported as KNOWN-FINDING; companion SqlKF15 proves it still occurs",
     ),
     "C03": dict(
         technique=MULTI,
